@@ -4,6 +4,7 @@ import QmiModel.Lemmas.C08Quiet
 import QmiModel.Lemmas.C08Live
 import QmiModel.Lemmas.C08NetLive
 import QmiModel.Lemmas.C08NetTok
+import QmiModel.Lemmas.C08Sim10
 /-!
 # C08 — subscription state stays consistent through removal and disconnects
 
@@ -246,13 +247,35 @@ def QuiescentConsistency : Prop := ∀ s, Reach s → Quiescent s → Consistent
 
 /-- the statement of the property: once nothing is in flight — and no context is half-way through its stop, which is an
 enabled continuation (`Act.stop`), i.e. something still in flight — the two tables agree.  It was false of the model of the
-tree with 3b40385 only (stale removal notice, `staleTrace` below; repaired).  **Not proved yet** for the current source: it
-needs the agreement invariant per (connection, key) on top of a linearity invariant for request tokens (every outstanding
-request id has exactly one carrier on the client side and at most one of: request in the server's inbox / server handler /
-reply in the server's queue / reply in the client's inbox); the pipeline invariants below it are mechanised (`TypInv`,
-`RegInv`, `OpenInv`, `IdInv`, `ReqInv`, Lemmas/C07Net*, C08Net*).  On the implementation the statement is checked per
-history by the C08 oracle (table iff in both directions, probes, transmitted-peer sets). -/
+tree with 3b40385 only (stale removal notice, `staleTrace` below; repaired by a22664f).  Proved for the current source as
+`quiescent_consistency` below. -/
 def QuiescentConsistencySettled : Prop := ∀ s, Reach s → Quiescent s → NoStopPending s → Consistent s
+
+/-- **quiescent consistency**: in every reachable state in which nothing is in flight (every thread of a live context
+idle, event loops empty, no pending request, every open connection end of a live context has read everything and its other
+end is open) and no live context is half-way through its stop, a context has a connected peer as remote subscriber of a
+signal **exactly when** that peer has a receiver for it.
+
+Proof (Lemmas/C08Proto … C08Sim10): the model is simulated, per (connection, publisher object, signal), by a finite-state
+abstraction of the subscription protocol (`Proto.AS`: the two table bits, the object-map state, the phase of the thread that
+removes the object, the pending request of the subscriber with its `publisher_removed` mark, the position of the one
+outstanding request — subscriber side / handler stage / reply being sent / in the channel / reply handler —, the content
+of the FIFO channel publisher → subscriber, the pending removal-notice handler and a left-over cleanup of an earlier
+connection).  `sim_step`: every step of the model is a step of `Proto.next` or invisible (`sim_micro_a`, `sim_micro_p`,
+`sim_micro_foreign`, `sim_nstep`); `sim_init`: a new connection starts in `Proto.inits`; the 1145 reachable abstract states
+are closed under `next` and their settled states have both bits equal (`reach_closed`, `reach_safe`: kernel evaluation).
+Supporting invariants: request tokens are neither lost nor duplicated (`TokInv`, `SrvInv`), requests are typed by the
+pending tables wherever they are (`CtInv`), handler / remover / cleanup programs have their shape (`DspInv`, `RemInv`,
+`TdInv`, `TdLink`), a reserved object name is held by exactly one thread, receivers for a peer's signal exist only while
+connected to it (`LsubInv`). -/
+theorem quiescent_consistency : QuiescentConsistencySettled :=
+  fun _ hr hq hns => quiescent_consistent hr hq hns
+
+/-- the simulation behind `quiescent_consistency`: in a reachable state, the abstraction of every connection that is
+registered at both ends between two running contexts, for every object and signal, is a reachable state of the abstract
+protocol -/
+theorem protocol_simulation {s : State} (hr : Reach s) (cn : ConnId) (ob : Obj) (sg : Sg) (hl : Live s cn) :
+    ∃ x, Sim s cn ob sg x ∧ Proto.memB x = true := sim_reach hr cn ob sg hl
 
 /-- Context 1 subscribes receiver 5 to object 0 / signal 0 of context 0 (handshake completes); context 0 begins to stop
 (router marked inactive); one of its threads removes object 0: `handle_object_removed` empties the remote-subscriber
